@@ -741,3 +741,43 @@ func c05LoopVarCapture(c *Ctx) {
 }
 func c14LoopVarCapture(c *Ctx) { loopVarCaptureRule(c, "C14.one-outcome", []string{"broker.go"}) }
 func c12LoopVarCapture(c *Ctx) { loopVarCaptureRule(c, "C12.pairing", nil) }
+
+// binary search needs a sorted slice: sort.SearchStrings/SearchInts over a slice the function did not sort itself.
+func sortedSearchRule(c *Ctx, rule string) {
+	p := c.P
+	isSortPkg := func(cc *ssa.CallCommon, names ...string) bool {
+		f := cc.StaticCallee()
+		if f == nil || f.Pkg == nil || f.Pkg.Pkg.Path() != "sort" {
+			return false
+		}
+		for _, n := range names {
+			if f.Name() == n {
+				return true
+			}
+		}
+		return false
+	}
+	for _, fn := range p.Fns {
+		if fn.Blocks == nil || rootOf(fn).Pkg != p.Sarama {
+			continue
+		}
+		reg := WholeFn(fn)
+		for _, s := range Info(fn).Find(func(it Item) bool {
+			cc, ok := callCommon(it)
+			return ok && isSortPkg(cc, "SearchStrings", "SearchInts", "SearchFloat64s")
+		}) {
+			arg := callArgs(s)[0]
+			sorts := func(it Item) bool {
+				cc, ok := callCommon(it)
+				if !ok || !isSortPkg(cc, "Strings", "Ints", "Float64s", "Slice", "SliceStable", "Sort", "Stable") || len(cc.Args) == 0 {
+					return false
+				}
+				return samePath(cc.Args[0], arg)
+			}
+			it, path := reg.MustPrecede(sorts, IsItem(s))
+			c.Check(it.IsZero(), rule, fn, "binary-search-over-sorted", s.Instr(), "the slice searched was sorted by this function on every path", "sort.Search… is used on a slice that "+p.Name(fn)+" did not sort itself: a binary search over an unsorted slice answers 'absent' for elements that are present.  For strsContains the slice is a member's subscription in the order the application passed it to Consume: the sticky strategy then believes the member dropped the topic, treats everything it owned as abandoned and re-deals it — the plan is still valid and balanced, but re-planning with nothing changed no longer returns the previous plan and partitions move between old members", path)
+		}
+	}
+}
+
+func c13SortedSearch(c *Ctx) { sortedSearchRule(c, "C13.sticky-kept") }
